@@ -1,8 +1,9 @@
 package main
 
 import (
-	"fmt"
 	"go/types"
+	"fmt"
+	"go/token"
 
 	"golang.org/x/tools/go/ssa"
 )
@@ -61,6 +62,7 @@ type headSnap struct {
 type envEntry struct {
 	v      Value
 	isAddr bool
+	pos    token.Pos // where the source variable is declared (identifies it among variables of the same name)
 }
 
 type preSnap struct {
